@@ -645,7 +645,7 @@ def hostile_letter(a, pool, rnd):
     """One letter of DaemonHostile.tla as a raw message (code, body, descriptors)."""
     import struct
     k, f = a["k"], a["f"]
-    ua0, size0 = from_limbs4(pool[0]["ua"]), from_limbs4(pool[0]["size"])
+    ua0, size0, gpa0 = from_limbs4(pool[0]["ua"]), from_limbs4(pool[0]["size"]), from_limbs4(pool[0]["gpa"])
     def u64(c):
         return rnd.getrandbits(64) if c == "random" else U64V[c]
     def addr(c, align):
@@ -655,8 +655,9 @@ def hostile_letter(a, pool, rnd):
     why = []
     def reg(r):
         g = {"zero": 0, "page": 0x1000, "2^63": 1 << 63, "top-2pages": (1 << 64) - 0x2000, "top-page": (1 << 64) - 0x1000}
-        sz = {"zero": 0, "page": 0x1000, "beyond-file": 0x100000, "2^63": 1 << 63, "max-page": (1 << 64) - 0x1000}
-        u = dict(g, mid=0x7000_0000_0000)
+        sz = {"zero": 0, "page": 0x1000, "beyond-file": 0x100000, "2^63": 1 << 63, "max-page": (1 << 64) - 0x1000, "mapped": size0}
+        u = dict(g, mid=0x7000_0000_0000, mapped=ua0)
+        g["mapped"] = gpa0
         o = {"zero": 0, "page": 0x1000, "2^63": 1 << 63, "top-page": (1 << 64) - 0x1000}
         if o[r["off"]] + sz[r["size"]] > FILE:
             why.append("window-extends-beyond-the-end-of-the-file")
